@@ -230,6 +230,8 @@ def check_config(ci):
                 w4.step(('deliver', w4.net[0].id))
         second_entry = len(c0['entries']) - 1
         w4.step(('acquire', 'A', 0, second_entry, 7, 0) if second_entry == 0 else ('acquire', 'A', 0, second_entry))
+        # ... and a third one for the same entry as the second but another flow (both are waiting in the queue then)
+        w4.step(('acquire', 'A', 0, second_entry, 9, 0))
         w4.deliver_all()
         inits = [d for d in w4.sent_log if d.sender == 'A' and d.data[18] == 34 and not d.data[19] & 0x20]
         spis = {d.data[0:8] for d in inits}
@@ -240,9 +242,10 @@ def check_config(ci):
         if len(peers) != 1:
             probs.append(('acquire:negotiating:ike-sa-count', 'after two ACQUIREs for one connection A holds %d IKE_SAs with '
                           'that peer' % len(peers)))
-        elif len(peers[0].child_sas) != 2:
-            probs.append(('acquire:negotiating:child-count', 'after two ACQUIREs for one connection %d CHILD_SAs exist '
-                          '(the queued one must be negotiated on the same IKE_SA)' % len(peers[0].child_sas)))
+        elif len(peers[0].child_sas) != 3:
+            probs.append(('acquire:negotiating:child-count', 'after three ACQUIREs for one connection (the last two for one '
+                          'entry, different flows, both queued) %d CHILD_SAs exist (every queued one must be negotiated on '
+                          'the same IKE_SA)' % len(peers[0].child_sas)))
     # --- ACQUIRE for an unknown index
     for idx in (0x7ffff1, 1, (77 << 3) | 1):
         if any(p == idx for p in out_pols.values()):
